@@ -95,6 +95,8 @@ let judges : (string * (Gsext.sx -> Gsext.verdict)) list = [
   "amostruct", Gsext.judge_amo_struct;
   "tracepb", Gsext.judge_trace_pb;
   "goir", Gsext.judge_goir;
+  "goirpb", Gsext.judge_goir_pbop;
+  "goirup", Gsext.judge_goir_up;
 ]
 
 let () =
